@@ -92,6 +92,11 @@ def run_impl(cfg, events, ops, trace=False, payload_type=bytes, keymode="script"
     if cfg.get("to") is not None:
         sock.timeout = cfg["to"] / 1000.0
     ws.sock = sock
+    if cfg.get("dispatcher"):
+        # the object as WebSocketApp drives it: writes go through the dispatcher's send (implementation-side only;
+        # the model's `_send` is the transport send — a dispatcher must not change what a send puts on the wire)
+        from websocket import _dispatcher
+        ws.dispatcher = {"plain": _dispatcher.Dispatcher, "ssl": _dispatcher.SSLDispatcher}[cfg["dispatcher"]](None, None)
     ws.connected = bool(cfg.get("conn", True))
     keys = list(cfg.get("keys") or [])
     draws = [0]
@@ -174,6 +179,7 @@ def run_impl(cfg, events, ops, trace=False, payload_type=bytes, keymode="script"
             except Exception as e:  # noqa
                 res = "X:" + common.canon_exc(e)
             delta = bytes(sock.sent[before:])
+            sock.step_recvs.append(len(sock.recv_sizes))      # side channel for oracles (not part of the compared line)
             outs.append(f"{res}|{int(bool(ws.connected))}{int(ws.sock is not None)}{int(sock.closed)}|"
                         f"{sock.calls}|{sock.clock}|{summarize(delta)}")
     finally:
